@@ -50,6 +50,19 @@ def directed_inputs(rng, n):
                 fams.add(4)
             syn[u - 1] = tuple(sorted(fams or {rng.randint(1, 4)}))
         out.append(sc.sinput(ot, st, lm, rng.choice(sc.SUPER_COSTS), syn))
+    # staircases: caterpillars (either hand) whose leaves carry one or two
+    # families each, so that families are gained at several successive levels
+    # and INHERIT nodes are nested below one another
+    for k in range(n):
+        ot = (0,)
+        for _ in range(rng.choice((4, 4, 5))):
+            ot = gen.join(ot, (0,)) if k % 2 else gen.join((0,), ot)
+        st = rng.choice(gen.bin_shapes_upto(3))
+        lm = gen.random_leaf_map(rng, ot, st)
+        syn = [()] * len(ot)
+        for u in proj.leaves_of(ot):
+            syn[u - 1] = tuple(sorted(rng.sample((1, 2, 3, 4), rng.choice((1, 1, 2)))))
+        out.append(sc.sinput(ot, st, lm, rng.choice(sc.SUPER_COSTS), syn))
     return out
 
 
